@@ -281,6 +281,122 @@ fn child(scen_seed: u64) -> i32 {
     0
 }
 
+// ------------------------------------------------------------------ C17: coloured writes to the std handles from several threads
+
+const COLORS17: [anstyle::AnsiColor; 6] = [
+    anstyle::AnsiColor::Red,
+    anstyle::AnsiColor::Green,
+    anstyle::AnsiColor::Blue,
+    anstyle::AnsiColor::BrightYellow,
+    anstyle::AnsiColor::BrightCyan,
+    anstyle::AnsiColor::White,
+];
+
+/// (thread, call) -> (stderr?, fg, bg, data)
+fn scenario17(scen_seed: u64) -> Vec<Vec<(bool, Option<usize>, Option<usize>, String)>> {
+    let mut rng = Rng::new(run_seed(0xC17, 0x2718, scen_seed));
+    let nthreads = rng.range(2, 3);
+    (0..nthreads)
+        .map(|t| {
+            (0..rng.range(1, 3))
+                .map(|c| {
+                    let fg = if rng.chance(4, 5) { Some(rng.below(6)) } else { None };
+                    let bg = if rng.chance(1, 2) { Some(rng.below(6)) } else { None };
+                    (rng.chance(1, 3), fg, bg, format!("<t{t}c{c}-{}>", "x".repeat(rng.range(1, 8))))
+                })
+                .collect()
+        })
+        .collect()
+}
+
+/// Program under test for C17's concurrency clause: every thread makes coloured writes through the
+/// real `WinconStream` impls of `Stdout` / `Stderr`.
+fn child17(scen_seed: u64) -> i32 {
+    use anstyle_wincon::WinconStream;
+    let sc = std::sync::Arc::new(scenario17(scen_seed));
+    let run = |sc: &Vec<Vec<(bool, Option<usize>, Option<usize>, String)>>, t: usize| {
+        for (err, fg, bg, data) in &sc[t] {
+            let (fg, bg) = (fg.map(|i| COLORS17[i]), bg.map(|i| COLORS17[i]));
+            let mut rest = data.as_bytes();
+            // a caller's write loop: the count may be short
+            while !rest.is_empty() {
+                let n = if *err { std::io::stderr().write_colored(fg, bg, rest) } else { std::io::stdout().write_colored(fg, bg, rest) }.unwrap();
+                rest = &rest[n..];
+                if n == 0 {
+                    break;
+                }
+            }
+        }
+    };
+    let mut hs = Vec::new();
+    for t in 1..sc.len() {
+        let sc2 = sc.clone();
+        hs.push(std::thread::spawn(move || run(&sc2, t)));
+    }
+    run(&sc, 0);
+    for h in hs {
+        h.join().unwrap();
+    }
+    let _ = std::io::stdout().flush();
+    0
+}
+
+/// Every frame `<codes><data><reset>` must be contiguous in its stream.  Frames are generated by
+/// the real code single-threaded (reference rendering into a Vec), so the check is about
+/// interleaving only.
+fn judge17(scen_seed: u64, r: &RunResult) -> Result<u64, (String, String)> {
+    if r.status != 0 {
+        let err_text = String::from_utf8_lossy(&r.err).to_string();
+        let class = if err_text.contains("Undefined Behavior") || err_text.contains("Data race") { "miri-undefined-behaviour" } else { "child-failed" };
+        let tail: String = err_text.chars().rev().take(1200).collect::<String>().chars().rev().collect();
+        return Err((class.into(), format!("exit status {}: {}", r.status, tail)));
+    }
+    let sc = scenario17(scen_seed);
+    let mut order = rng::Fnv::default();
+    for is_err in [false, true] {
+        let data = if is_err { &r.err } else { &r.out };
+        let frames: Vec<Vec<Vec<u8>>> = sc
+            .iter()
+            .map(|calls| {
+                calls
+                    .iter()
+                    .filter(|c| c.0 == is_err)
+                    .map(|(_, fg, bg, d)| {
+                        let mut v = Vec::new();
+                        let _ = anstyle_wincon::ansi::write_colored(&mut v, fg.map(|i| COLORS17[i]), bg.map(|i| COLORS17[i]), d.as_bytes());
+                        v
+                    })
+                    .collect()
+            })
+            .collect();
+        let mut next = vec![0usize; frames.len()];
+        let mut pos = 0;
+        while pos < data.len() {
+            let hit = (0..frames.len()).find(|&t| next[t] < frames[t].len() && data[pos..].starts_with(&frames[t][next[t]]));
+            let Some(t) = hit else {
+                return Err((
+                    "interleaved-frames".into(),
+                    format!(
+                        "{} is not a concatenation of whole coloured frames: at byte {pos}: {:?} (whole stream {:?})",
+                        if is_err { "stderr" } else { "stdout" },
+                        String::from_utf8_lossy(&data[pos..(pos + 50).min(data.len())]).escape_debug().to_string(),
+                        String::from_utf8_lossy(data).escape_debug().to_string()
+                    ),
+                ));
+            };
+            pos += frames[t][next[t]].len();
+            next[t] += 1;
+            order.byte(t as u8);
+        }
+        for t in 0..frames.len() {
+            if next[t] != frames[t].len() {
+                return Err(("lost-frame".into(), format!("{} frame(s) of thread {t} missing", frames[t].len() - next[t])));
+            }
+        }
+    }
+    Ok(order.0)
+}
+
 // ------------------------------------------------------------------ checker (native)
 
 fn strip(s: &str) -> String {
@@ -359,8 +475,12 @@ struct RunResult {
 }
 
 fn miri_run(miri_seed: u64, rate: &str, scen_seed: u64) -> std::io::Result<RunResult> {
+    miri_run_role("child", miri_seed, rate, scen_seed)
+}
+
+fn miri_run_role(role: &str, miri_seed: u64, rate: &str, scen_seed: u64) -> std::io::Result<RunResult> {
     let o = Command::new("cargo")
-        .args(["+nightly", "miri", "run", "--offline", "-q", "--", "child", &scen_seed.to_string()])
+        .args(["+nightly", "miri", "run", "--offline", "-q", "--", role, &scen_seed.to_string()])
         .current_dir(format!("{}/c19/miri-sim", std::env::var("VERIF_ROOT").unwrap_or_else(|_| "/verif".to_string())))
         .env("MIRIFLAGS", format!("-Zmiri-seed={miri_seed} -Zmiri-preemption-rate={rate}"))
         .env("CARGO_NET_OFFLINE", "true")
@@ -528,6 +648,83 @@ fn drive(seed: u64, first: u64, count: u64, report: &str) -> i32 {
     }
 }
 
+/// `drive17 <seed> <count> <report>`: the C17 concurrency clause under Miri.
+fn drive17(seed: u64, count: u64, report: &str) -> i32 {
+    let start = std::time::Instant::now();
+    let _ = miri_run_role("child17", 0, "0.1", 0);
+    let workers = std::env::var("VERIF_WORKERS").ok().and_then(|v| v.parse().ok()).unwrap_or_else(|| std::thread::available_parallelism().map(|n| n.get()).unwrap_or(4));
+    let next = std::sync::atomic::AtomicU64::new(0);
+    let results = std::sync::Mutex::new(Vec::new());
+    std::thread::scope(|s| {
+        for _ in 0..workers {
+            s.spawn(|| loop {
+                let i = next.fetch_add(1, std::sync::atomic::Ordering::Relaxed);
+                if i >= count {
+                    break;
+                }
+                let miri_seed = splitmix64(seed ^ i.wrapping_mul(0x9E37) ^ 0x17) % (1 << 31);
+                let rate = RATES[(i % RATES.len() as u64) as usize];
+                let scen_seed = splitmix64(seed.wrapping_add(i / 4) ^ 0x1717) % 1_000_000;
+                let verdict = match miri_run_role("child17", miri_seed, rate, scen_seed) {
+                    Ok(r) => judge17(scen_seed, &r).map_err(|(c, d)| (c, d, String::from_utf8_lossy(&r.out).to_string(), String::from_utf8_lossy(&r.err).to_string())),
+                    Err(e) => Err(("harness".to_string(), e.to_string(), String::new(), String::new())),
+                };
+                results.lock().unwrap().push((i, miri_seed, rate, scen_seed, verdict));
+            });
+        }
+    });
+    let mut results = results.into_inner().unwrap();
+    results.sort_by_key(|r| r.0);
+    let mut orders = std::collections::BTreeSet::new();
+    let mut violation = String::from("null");
+    let mut harness_error = String::from("null");
+    for (_, miri_seed, rate, scen_seed, verdict) in &results {
+        match verdict {
+            Ok(h) => {
+                orders.insert((*scen_seed, *h));
+            }
+            Err((class, detail, _, _)) if class == "harness" => harness_error = json_str(detail),
+            Err((class, detail, out, err)) => {
+                if violation == "null" {
+                    violation = format!(
+                        "{{\"class\": {}, \"detail\": {}, \"miri_seed\": {miri_seed}, \"preemption_rate\": {}, \"scenario_seed\": {scen_seed}, \"stdout\": {}, \"stderr\": {}}}",
+                        json_str(class), json_str(detail), json_str(rate), json_str(out), json_str(err)
+                    );
+                }
+            }
+        }
+    }
+    let rep = format!(
+        "{{\"executions\": {}, \"distinct_frame_orders\": {}, \"wall_s\": {:.3}, \"violation\": {violation}, \"harness_error\": {harness_error}}}",
+        results.len(), orders.len(), start.elapsed().as_secs_f64()
+    );
+    if std::fs::write(report, rep).is_err() {
+        return 2;
+    }
+    if harness_error != "null" { 2 } else if violation != "null" { 1 } else { 0 }
+}
+
+fn replay17(path: &str) -> i32 {
+    let Ok(text) = std::fs::read_to_string(path) else { return 2 };
+    let (Some(ms), Some(rate), Some(ss)) = (field(&text, "miri_seed"), field(&text, "preemption_rate"), field(&text, "scenario_seed")) else { return 2 };
+    let (ms, ss): (u64, u64) = (ms.parse().unwrap_or(0), ss.parse().unwrap_or(0));
+    println!("replay: cargo +nightly miri run -- child17 {ss}   with -Zmiri-seed={ms} -Zmiri-preemption-rate={rate}");
+    match miri_run_role("child17", ms, rate, ss) {
+        Err(_) => 2,
+        Ok(r) => match judge17(ss, &r) {
+            Ok(_) => {
+                println!("replay: no violation");
+                0
+            }
+            Err((class, detail)) => {
+                println!("replay: class={class}\n  {detail}");
+                println!("VIOLATION property=C17 replay={path}");
+                1
+            }
+        },
+    }
+}
+
 fn field<'a>(text: &'a str, key: &str) -> Option<&'a str> {
     let k = format!("\"{key}\":");
     let at = text.find(&k)? + k.len();
@@ -576,6 +773,9 @@ fn main() {
     let p = |i: usize| -> u64 { args.get(i).and_then(|s| s.parse().ok()).unwrap_or(0) };
     let code = match args.get(1).map(|s| s.as_str()) {
         Some("child") => child(p(2)),
+        Some("child17") => child17(p(2)),
+        Some("drive17") if args.len() >= 5 => drive17(p(2), p(3), &args[4]),
+        Some("replay17") if args.len() >= 3 => replay17(&args[2]),
         Some("drive") if args.len() >= 6 => drive(p(2), p(3), p(4), &args[5]),
         Some("replay") if args.len() >= 3 => replay(&args[2]),
         Some("native") => {
